@@ -205,6 +205,21 @@ func c14Eval(sh c14Shape, g uint64) (fails [][4]interface{}, dag bool, queries i
 	queries += 2
 	ref, isDag := c14DagDepth(sh, g)
 	dag = isDag
+	// the same graph built through the modular constructor with an EMPTY list of control nodes (what
+	// Genesis produces for a genome whose modules are all disabled): still an ordinary network
+	{
+		n2, _ := c14Build(sh, g)
+		m := network.NewModularNetwork(n2.VInputs(), n2.Outputs, n2.BaseNodes(), []*network.NNode{}, 1)
+		d, err := m.MaxActivationDepth()
+		queries++
+		if err != nil {
+			fails = append(fails, [4]interface{}{"empty-module-list", fmt.Sprintf("MaxActivationDepth() on the network built with an empty control-node list failed: %v", err), 0, -1})
+		} else if isDag && d != ref {
+			fails = append(fails, [4]interface{}{"empty-module-list", fmt.Sprintf("MaxActivationDepth() on the network built with an empty (non-nil) control-node list = %d, longest path ending in an output has %d links", d, ref), 0, -1})
+		} else if !isDag && (d < 0 || d > nNodes) {
+			fails = append(fails, [4]interface{}{"empty-module-list", fmt.Sprintf("MaxActivationDepth() on the cyclic network built with an empty control-node list = %d, outside [0,%d]", d, nNodes), 0, -1})
+		}
+	}
 	if isDag {
 		if u.depth != ref {
 			fails = append(fails, [4]interface{}{"dag-depth", fmt.Sprintf("depth %d, longest path ending in an output has %d links", u.depth, ref), 0, -1})
